@@ -119,7 +119,11 @@ impl<'a> Message<'a> {
             });
             let last = self.params[self.params.len() - 1];
             // if last parameter have ':', spaces then add it as last (:last param).
-            if last.find(|c| c == ':' || c == ' ' || c == '\t').is_some() || last.is_empty() {
+            if last
+                .find(|c: char| c == ':' || c.is_ascii_whitespace())
+                .is_some()
+                || last.is_empty()
+            {
                 out += " :";
             } else {
                 out.push(' ');
